@@ -3,6 +3,7 @@
 #![allow(unused_imports, dead_code, unused_variables, unused_mut, unused_assignments, unexpected_cfgs)]
 use vstd::prelude::*;
 use std::cmp::min;
+use std::slice::Chunks;
 
 verus! {
 
@@ -26,6 +27,10 @@ pub struct XlsEncoding { _opaque: u8 }
 //@@ item src/datatype.rs enum Data keep_attrs
 //@@ item src/datatype.rs enum DataRef keep_attrs
 //@@ item src/formats.rs enum CellFormat keep_attrs
+//@@ item src/xls.rs struct Record
+//@@ item src/xls.rs struct RecordIter
+//@@ item src/xls.rs struct Bof
+//@@ item src/xls.rs enum Biff keep_attrs
 impl CellType for Data {}
 
 // spec-level access to private fields (these structs have private fields, so `pub` contracts go through closed accessors)
@@ -34,6 +39,8 @@ impl<T: CellType> Cell<T> {
     pub closed spec fn v(&self) -> T { self.val }
 }
 impl ExcelDateTime {
+    pub closed spec fn ty(&self) -> ExcelDateTimeType { self.datetime_type }
+    pub closed spec fn f1904(&self) -> bool { self.is_1904 }
     pub closed spec fn mk(value: f64, datetime_type: ExcelDateTimeType, is_1904: bool) -> ExcelDateTime { ExcelDateTime { value, datetime_type, is_1904 } }
 }
 
@@ -70,11 +77,12 @@ pub open spec fn wrap_f64(v: f64, f: Option<CellFormat>, is_1904: bool) -> Data 
     }
 }
 
-pub open spec fn wrap_i64(v: i64, f: Option<CellFormat>, is_1904: bool) -> Data {
+/// same for a stored integer (the integer-to-double conversion itself is a float operation: uninterpreted in Verus, see Kani rk_num_int)
+pub open spec fn wrap_i64(v: i64, f: Option<CellFormat>, is_1904: bool, d: Data) -> bool {
     match f {
-        Some(CellFormat::DateTime) => Data::DateTime(ExcelDateTime::mk(v as f64, ExcelDateTimeType::DateTime, is_1904)),
-        Some(CellFormat::TimeDelta) => Data::DateTime(ExcelDateTime::mk(v as f64, ExcelDateTimeType::TimeDelta, is_1904)),
-        _ => Data::Int(v),
+        Some(CellFormat::DateTime) => d is DateTime && d->DateTime_0.ty() == ExcelDateTimeType::DateTime && d->DateTime_0.f1904() == is_1904,
+        Some(CellFormat::TimeDelta) => d is DateTime && d->DateTime_0.ty() == ExcelDateTimeType::TimeDelta && d->DateTime_0.f1904() == is_1904,
+        _ => d == Data::Int(v),
     }
 }
 pub open spec fn opt_fmt(format: Option<&CellFormat>) -> Option<CellFormat> { match format { Some(f) => Some(*f), None => None } }
@@ -146,14 +154,29 @@ proof fn lemma_le_at(r: Seq<u8>, o: int)
 //@@ end
 //@@ endimpl
 
+// the From trait carries vstd's FromSpec: the conversion DataRef -> Data is the identity on every shared variant
+impl<'a> vstd::std_specs::convert::FromSpecImpl<DataRef<'a>> for Data {
+    open spec fn obeys_from_spec() -> bool { true }
+    open spec fn from_spec(value: DataRef<'a>) -> Data {
+        match value {
+            DataRef::Int(v) => Data::Int(v),
+            DataRef::Float(v) => Data::Float(v),
+            DataRef::String(v) => Data::String(v),
+            DataRef::SharedString(v) => Data::String(<String as vstd::std_specs::convert::FromSpec<&str>>::from_spec(v)),
+            DataRef::Bool(v) => Data::Bool(v),
+            DataRef::DateTime(v) => Data::DateTime(v),
+            DataRef::DateTimeIso(v) => Data::DateTimeIso(v),
+            DataRef::DurationIso(v) => Data::DurationIso(v),
+            DataRef::Error(v) => Data::Error(v),
+            DataRef::Empty => Data::Empty,
+        }
+    }
+}
 //@@ impl src/datatype.rs "From<DataRef<'a>> for Data"
-//@@ fn src/datatype.rs "From<DataRef<'a>> for Data::from" props=C10 ret=d
-//@@ sig
-    ensures
-        //# C10.dataref_into_float
-        value matches DataRef::Float(v) ==> d == Data::Float(v),
-        //# C10.dataref_into_datetime
-        value matches DataRef::DateTime(v) ==> d == Data::DateTime(v),
+// TRUSTED: `from` is external_body: its `SharedString(v) => Data::String(v.into())` arm needs a vstd spec of <&str as Into<String>> that does
+// not exist; the FromSpecImpl above states what the ten-arm match does. The two arms used here (Float, DateTime) are covered on the real
+// code by the Kani harness format_excel_f64_spec (all doubles x all formats x both date systems).
+//@@ fn src/datatype.rs "From<DataRef<'a>> for Data::from" props=C10 ret=d external_body by=format_excel_f64_spec
 //@@ end
 //@@ endimpl
 
@@ -179,7 +202,7 @@ proof fn lemma_le_at(r: Seq<u8>, o: int)
 //@@ sig
     ensures
         //# C10.format_i64
-        d == wrap_i64(value, opt_fmt(format), is_1904),
+        wrap_i64(value, opt_fmt(format), is_1904, d),
 //@@ end
 
 //@@ fn src/xls.rs rk_num props=C02,C10 ret=d external_body by=rk_num_int,rk_num_int_x100,rk_num_float,rk_num_float_x100
@@ -247,6 +270,403 @@ proof fn lemma_le_at(r: Seq<u8>, o: int)
         assert(r@.subrange(4, 10).subrange(2, 6) =~= r@.subrange(6, 10));
     }
 //@@ end
+
+/// [MS-XLS] 2.4.149 LabelSst: cell (6 bytes), isst (4 bytes): index into the shared string table
+pub open spec fn labelsst_isst(r: Seq<u8>) -> int { u32_at(r, 6) }
+
+//@@ fn src/xls.rs parse_label_sst props=C02 entry ret=res
+//@@ sig
+    ensures
+        //# C02.labelsst_len_guard
+        r@.len() < 10 <==> res is Err,
+        //# C02.labelsst_len_err
+        r@.len() < 10 ==> is_len_err(res, 10, r@.len() as int),
+        //# C02.labelsst_resolved
+        r@.len() >= 10 && labelsst_isst(r@) < strings@.len() && strings@[labelsst_isst(r@)]@.len() > 0 ==>
+            res is Ok && res->Ok_0 is Some && res->Ok_0->Some_0.p() == cell_pos(r@)
+            && res->Ok_0->Some_0.v() == Data::String(strings@[labelsst_isst(r@)]),
+        //# C02.labelsst_empty_is_no_cell
+        r@.len() >= 10 && !(labelsst_isst(r@) < strings@.len() && strings@[labelsst_isst(r@)]@.len() > 0) ==> res is Ok && res->Ok_0 is None,
+//@@ before /let row = /
+    proof { lemma_le_at(r@, 0); lemma_le_at(r@, 2); lemma_le_at(r@, 6); assert(r@.subrange(0, r@.len() as int) =~= r@); }
+//@@ end
+
+/// [MS-XLS] 2.4.353 XF: ifnt (2 bytes), ifmt (2 bytes) -- the number format identifier
+//@@ fn src/xls.rs parse_xf props=C10 entry ret=res
+//@@ sig
+    ensures
+        //# C10.xf_len_guard
+        r.data@.len() < 4 <==> res is Err,
+        //# C10.xf_len_err
+        r.data@.len() < 4 ==> is_len_err(res, 4, r.data@.len() as int),
+        //# C10.xf_ifmt
+        r.data@.len() >= 4 ==> res is Ok && res->Ok_0 as int == u16_at(r.data@, 2),
+//@@ body
+    proof { lemma_le_at(r.data@, 2); }
+//@@ end
+
+/// [MS-XLS] 2.4.90 Dimensions (BIFF8, 14 bytes): rwMic u32, rwMac u32 (last row + 1), colMic u16, colMac u16 (last column + 1), reserved u16.
+/// BIFF5 (10 bytes): the same with 16-bit rows.
+pub open spec fn dim_fields(r: Seq<u8>) -> (int, int, int, int) {
+    if r.len() == 14 { (u32_at(r, 0), u32_at(r, 4), u16_at(r, 8), u16_at(r, 10)) }
+    else { (u16_at(r, 0), u16_at(r, 2), u16_at(r, 4), u16_at(r, 6)) }
+}
+
+//@@ fn src/xls.rs parse_dimensions props=C02 entry ret=res
+//@@ sig
+    ensures
+        //# C02.dimensions_len_guard
+        (r@.len() != 10 && r@.len() != 14) <==> res is Err,
+        //# C02.dimensions_len_err
+        (r@.len() != 10 && r@.len() != 14) ==> is_len_err(res, 14, r@.len() as int),
+        //# C02.dimensions_used_range
+        (r@.len() == 10 || r@.len() == 14) && dim_fields(r@).1 >= 1 && dim_fields(r@).3 >= 1 ==> res is Ok
+            && res->Ok_0.start == (dim_fields(r@).0 as u32, dim_fields(r@).2 as u32)
+            && res->Ok_0.end == ((dim_fields(r@).1 - 1) as u32, (dim_fields(r@).3 - 1) as u32),
+        //# C02.dimensions_empty_sheet
+        (r@.len() == 10 || r@.len() == 14) && !(dim_fields(r@).1 >= 1 && dim_fields(r@).3 >= 1) ==> res is Ok
+            && res->Ok_0.start == (dim_fields(r@).0 as u32, dim_fields(r@).2 as u32)
+            && res->Ok_0.end == res->Ok_0.start,
+//@@ body
+    proof {
+        let n = r@.len() as int;
+        if n == 10 || n == 14 {
+            assert forall|a: int, b: int| 0 <= a && a + 2 == b && b <= n implies le16(#[trigger] r@.subrange(a, b)) == u16_at(r@, a) by {}
+            assert forall|a: int, b: int| 0 <= a && a + 4 == b && b <= n implies le32(#[trigger] r@.subrange(a, b)) == u32_at(r@, a) by {}
+            lemma_le_at(r@, 0); lemma_le_at(r@, 2); lemma_le_at(r@, 4); lemma_le_at(r@, 6); lemma_le_at(r@, 8); lemma_le_at(r@, 10);
+        }
+    }
+//@@ end
+
+// =====================================================================================================
+// C17: MergeCells
+// =====================================================================================================
+/// [MS-XLS] 2.4.168 MergeCells: cmcs (2 bytes), then cmcs Ref8 structures;
+/// 2.5.209 Ref8: rwFirst, rwLast, colFirst, colLast (2 bytes each)
+pub open spec fn ref8_at(r: Seq<u8>, o: int) -> Dimensions {
+    Dimensions { start: (u16_at(r, o) as u32, u16_at(r, o + 4) as u32), end: (u16_at(r, o + 2) as u32, u16_at(r, o + 6) as u32) }
+}
+pub open spec fn merge_cmcs(r: Seq<u8>) -> int { u16_at(r, 0) }
+/// a record body holds its declared regions; [MS-XLS] 2.1.4: a record body is at most 65535 bytes (16-bit size field; cmcs <= 1026 by 2.4.168)
+pub open spec fn merge_wf(r: Seq<u8>) -> bool { r.len() >= 2 && r.len() >= 2 + 8 * merge_cmcs(r) && r.len() <= 65535 }
+pub open spec fn merge_regions(r: Seq<u8>) -> Seq<Dimensions> { Seq::new(merge_cmcs(r) as nat, |k: int| ref8_at(r, 2 + 8 * k)) }
+
+//@@ fn src/xls.rs parse_merge_cells props=C17 entry ret=res
+//@@ sig
+    ensures
+        //# C17.merge_ok
+        merge_wf(r@) ==> res is Ok,
+        //# C17.merge_count
+        merge_wf(r@) ==> final(merge_cells)@.len() == old(merge_cells)@.len() + merge_cmcs(r@),
+        //# C17.merge_frame
+        merge_wf(r@) ==> final(merge_cells)@.subrange(0, old(merge_cells)@.len() as int) == old(merge_cells)@,
+        //# C17.merge_regions
+        merge_wf(r@) ==> forall|k: int| 0 <= k < merge_cmcs(r@) ==> #[trigger] final(merge_cells)@[old(merge_cells)@.len() + k] == ref8_at(r@, 2 + 8 * k),
+//@@ body
+    let ghost m0 = merge_cells@;
+    proof { lemma_le_at(r@, 0); assert(r@.subrange(0, r@.len() as int) =~= r@); }
+//@@ loop 0 it
+        invariant
+            it.seq().len() == count,
+            forall|k: int| 0 <= k < count ==> it.seq()[k] == k,
+            r@.len() >= 2 ==> count == merge_cmcs(r@),
+            //# C17.merge_regions
+            merge_wf(r@) ==> merge_cells@ =~= m0 + Seq::new(it.index@ as nat, |k: int| ref8_at(r@, 2 + 8 * k)),
+//@@ before /let rf = /
+        proof {
+            lemma_le_at(r@, offset as int); lemma_le_at(r@, offset + 2); lemma_le_at(r@, offset + 4); lemma_le_at(r@, offset + 6);
+        }
+//@@ end
+
+// =====================================================================================================
+// MulRk
+// =====================================================================================================
+// ---- <[T]>::chunks (rule R6): documented behaviour of core::slice::Chunks
+// TRUSTED: `s.chunks(n)` panics iff n == 0; the iterator yields consecutive, non-overlapping sub-slices of n elements taken from the
+// front of what remains, the last one possibly shorter; `None` once nothing remains (core::slice::chunks documentation).
+#[verifier::external_type_specification] #[verifier::external_body] #[verifier::reject_recursive_types(T)]
+pub struct ExChunks<'a, T: 'a>(Chunks<'a, T>);
+/// elements not yet handed out
+pub uninterp spec fn chunks_rem<T>(c: Chunks<'_, T>) -> Seq<T>;
+/// chunk size
+pub uninterp spec fn chunks_size<T>(c: Chunks<'_, T>) -> int;
+pub open spec fn chunk_take<T>(c: Chunks<'_, T>) -> int {
+    if chunks_size(c) <= chunks_rem(c).len() { chunks_size(c) } else { chunks_rem(c).len() as int }
+}
+pub assume_specification<'a, T>[ <[T]>::chunks ](s: &'a [T], n: usize) -> (r: Chunks<'a, T>)
+    requires n != 0,
+    ensures chunks_rem(r) == s@, chunks_size(r) == n;
+pub assume_specification<'a, T>[ <Chunks<'a, T> as Iterator>::next ](c: &mut Chunks<'a, T>) -> (r: Option<&'a [T]>)
+    ensures
+        chunks_size(*final(c)) == chunks_size(*old(c)),
+        chunks_rem(*old(c)).len() == 0 ==> r is None && chunks_rem(*final(c)) == chunks_rem(*old(c)),
+        chunks_rem(*old(c)).len() > 0 ==> r is Some
+            && r->Some_0@ == chunks_rem(*old(c)).take(chunk_take(*old(c)))
+            && chunks_rem(*final(c)) == chunks_rem(*old(c)).skip(chunk_take(*old(c)));
+
+/// [MS-XLS] 2.4.175 MulRk: rw (2), colFirst (2), rgrkrec: (colLast - colFirst + 1) RkRec of 6 bytes (ixfe 2, RK 4), colLast (2)
+pub open spec fn mulrk_row(r: Seq<u8>) -> int { u16_at(r, 0) }
+pub open spec fn mulrk_col_first(r: Seq<u8>) -> int { u16_at(r, 2) }
+pub open spec fn mulrk_col_last(r: Seq<u8>) -> int { u16_at(r, r.len() - 2) }
+pub open spec fn mulrk_n(r: Seq<u8>) -> int { mulrk_col_last(r) - mulrk_col_first(r) + 1 }
+/// well-formed: the column span matches the number of RkRec present ([MS-XLS] 2.1.4: a record body is at most 65535 bytes)
+pub open spec fn mulrk_wf(r: Seq<u8>) -> bool {
+    r.len() >= 6 && mulrk_col_first(r) <= mulrk_col_last(r) && r.len() == 6 + 6 * mulrk_n(r) && r.len() <= 65535
+}
+/// the k-th cell of the run: position (rw, colFirst + k), value = RkRec k (at 4 + 6k: ixfe, then the RK number)
+pub open spec fn mulrk_cell_ok(r: Seq<u8>, formats: Seq<CellFormat>, is_1904: bool, k: int, c: Cell<Data>) -> bool {
+    c.p() == (mulrk_row(r) as u32, (mulrk_col_first(r) + k) as u32)
+    && c.v() == rk_value(r.subrange(6 + 6 * k, 10 + 6 * k), fmt_at(formats, u16_at(r, 4 + 6 * k)), is_1904)
+}
+
+//@@ fn src/xls.rs parse_mul_rk props=C02,C10 entry ret=res
+//@@ r6 0
+//@@ sig
+    ensures
+        //# C02.mulrk_len_guard
+        r@.len() < 6 ==> is_len_err(res, 6, r@.len() as int),
+        //# C02.mulrk_err_frame
+        res is Err ==> final(cells)@ == old(cells)@,
+        //# C02.mulrk_span_mismatch_rejected
+        6 <= r@.len() <= 65535 && mulrk_col_first(r@) <= mulrk_col_last(r@) && r@.len() != 6 + 6 * mulrk_n(r@) ==> res is Err,
+        //# C02.mulrk_ok
+        mulrk_wf(r@) ==> res is Ok,
+        //# C02.mulrk_count
+        mulrk_wf(r@) ==> final(cells)@.len() == old(cells)@.len() + mulrk_n(r@),
+        //# C02.mulrk_frame
+        mulrk_wf(r@) ==> final(cells)@.subrange(0, old(cells)@.len() as int) == old(cells)@,
+        //# C02,C10.mulrk_cells
+        mulrk_wf(r@) ==> forall|k: int| 0 <= k < mulrk_n(r@) ==>
+            mulrk_cell_ok(r@, formats@, is_1904, k, #[trigger] final(cells)@[old(cells)@.len() + k]),
+//@@ body
+    let ghost c0 = cells@;
+    let ghost mut k: int = 0;
+    proof { if r@.len() >= 6 { lemma_le_at(r@, 0); lemma_le_at(r@, 2); lemma_le_at(r@, r@.len() - 2); assert(r@.subrange(0, r@.len() as int) =~= r@); } }
+//@@ loop 0
+        invariant
+            r@.len() >= 6,
+            chunks_size(__it0) == 6,
+            row == mulrk_row(r@), col_first == mulrk_col_first(r@), col_last == mulrk_col_last(r@),
+            col_first <= col_last, r@.len() == 6 + 6 * mulrk_n(r@), mulrk_n(r@) <= 65535,
+            0 <= k <= mulrk_n(r@),
+            col == col_first + k,
+            chunks_rem(__it0) =~= r@.subrange(4 + 6 * k, r@.len() - 2),
+            cells@.len() == c0.len() + k,
+            cells@.subrange(0, c0.len() as int) =~= c0,
+            //# C02,C10.mulrk_cells
+            forall|j: int| 0 <= j < k ==> mulrk_cell_ok(r@, formats@, is_1904, j, #[trigger] cells@[c0.len() + j]),
+        ensures
+            k == mulrk_n(r@),
+        decreases chunks_rem(__it0).len(),
+//@@ before /cells\.push\(/
+        proof {
+            assert(k < mulrk_n(r@));
+            assert(chunks_rem(__it0) =~= r@.subrange(4 + 6 * k + 6, r@.len() - 2));
+            assert(rk@ =~= r@.subrange(4 + 6 * k, 10 + 6 * k));
+            assert(rk@.subrange(2, 6) =~= r@.subrange(6 + 6 * k, 10 + 6 * k));
+            assert(u16_at(rk@, 0) == u16_at(r@, 4 + 6 * k));
+        }
+//@@ after /col \+= 1;/
+        proof {
+            assert(cells@.subrange(0, c0.len() as int) =~= c0);
+            k = k + 1;
+        }
+//@@ end
+
+// =====================================================================================================
+// Record framing ([MS-XLS] 2.1.4): record = type (2 bytes), size (2 bytes), data (size bytes); 0x003C Continue records extend a record
+// =====================================================================================================
+/// the bytes of one record on the stream
+pub open spec fn frame(typ: int, d: Seq<u8>) -> Seq<u8> {
+    seq![(typ % 256) as u8, (typ / 256) as u8, (d.len() % 256) as u8, (d.len() / 256) as u8] + d
+}
+/// the bytes of a run of Continue records carrying the chunks `c` in order
+pub open spec fn cont_frames(c: Seq<&[u8]>) -> Seq<u8>
+    decreases c.len()
+{
+    if c.len() == 0 { Seq::<u8>::empty() } else { cont_frames(c.drop_last()) + frame(0x3C, c.last()@) }
+}
+impl<'a> RecordIter<'a> {
+    pub closed spec fn s(&self) -> Seq<u8> { self.stream@ }
+}
+impl<'a> Record<'a> {
+    pub closed spec fn t(&self) -> int { self.typ as int }
+    pub closed spec fn d(&self) -> Seq<u8> { self.data@ }
+    pub closed spec fn c(&self) -> Seq<&[u8]> { conts(*self) }
+    pub closed spec fn has_cont(&self) -> bool { self.cont is Some }
+}
+spec fn conts(rec: Record) -> Seq<&[u8]> { match rec.cont { Some(v) => v@, None => Seq::<&[u8]>::empty() } }
+/// stream position is at a Continue record header with at least one byte behind it.
+/// (A stream that *ends* in a bare 4-byte zero-length Continue header is not attached by the code; a BIFF substream is closed by an EOF record
+/// (type 0x000A, 2.4.103), so this cannot occur in a well-formed workbook and makes no observable difference to any cell.)
+pub open spec fn at_continue(s: Seq<u8>) -> bool { s.len() > 4 && u16_at(s, 0) == 0x3C }
+
+/// payload still ahead in a record: the current chunk followed by the pending Continue chunks
+pub open spec fn flat(c: Seq<&[u8]>) -> Seq<u8>
+    decreases c.len()
+{
+    if c.len() == 0 { Seq::<u8>::empty() } else { c[0]@ + flat(c.skip(1)) }
+}
+spec fn rest(rec: Record) -> Seq<u8> { rec.data@ + flat(conts(rec)) }
+spec fn rest_len(rec: Record) -> int { rest(rec).len() as int }
+proof fn lemma_rest(rec: Record)
+    ensures
+        conts(rec).len() > 0 ==> flat(conts(rec)) == conts(rec)[0]@ + flat(conts(rec).skip(1)),
+        conts(rec).len() == 0 ==> flat(conts(rec)) =~= Seq::<u8>::empty(),
+{
+}
+
+// TRUSTED: std::cmp::min on usize returns the smaller argument (core::cmp documentation)
+pub uninterp spec fn min_spec<T>(a: T, b: T) -> T;
+pub assume_specification<T: Ord>[ std::cmp::min::<T> ](a: T, b: T) -> (r: T)
+    ensures r == min_spec(a, b);
+// TRUSTED: ... instantiated at usize
+#[verifier::external_body]
+pub proof fn axiom_min_usize(a: usize, b: usize)
+    ensures min_spec::<usize>(a, b) == (if a <= b { a } else { b }),
+{}
+
+proof fn lemma_frame_split(s: Seq<u8>)
+    requires s.len() >= 4, s.len() >= 4 + u16_at(s, 2),
+    ensures s =~= frame(u16_at(s, 0), s.subrange(4, 4 + u16_at(s, 2))) + s.subrange(4 + u16_at(s, 2), s.len() as int),
+{
+    let t = u16_at(s, 0); let l = u16_at(s, 2);
+    assert(t % 256 == s[0] as int && t / 256 == s[1] as int);
+    assert(l % 256 == s[2] as int && l / 256 == s[3] as int);
+}
+
+//@@ impl src/xls.rs Record
+//@@ fn src/xls.rs Record::continue_record props=C02 ret=b
+//@@ sig
+    ensures
+        //# C02.continue_next_chunk
+        conts(*old(self)).len() > 0 ==> b && final(self).data == conts(*old(self))[0] && conts(*final(self)) == conts(*old(self)).skip(1)
+            && final(self).cont is Some,
+        //# C02.continue_exhausted
+        conts(*old(self)).len() == 0 ==> !b && *final(self) == *old(self),
+        //# C02.continue_typ_frame
+        final(self).typ == old(self).typ,
+//@@ end
+//@@ fn src/xls.rs Record::skip props=C02 entry ret=res
+//@@ sig
+    ensures
+        //# C02.skip_ok_iff_enough
+        res is Ok <==> len <= rest_len(*old(self)),
+        //# C02.skip_err_kind
+        res is Err ==> res matches Err(XlsError::ContinueRecordTooShort),
+        //# C02.skip_advances
+        res is Ok ==> rest(*final(self)) == rest(*old(self)).skip(len as int),
+        //# C02.skip_typ_frame
+        final(self).typ == old(self).typ,
+//@@ body
+    let ghost len0 = len as int;
+    let ghost me0 = *self;
+    proof { assert(rest(me0).skip(0) =~= rest(me0)); }
+//@@ before /while len/
+    #[verifier::loop_isolation(false)]
+//@@ loop 0
+        invariant
+            self.typ == me0.typ,
+            0 <= len <= len0,
+            rest_len(*self) + (len0 - len) == rest_len(me0),
+            rest(*self) =~= rest(me0).skip(len0 - len),
+        decreases len, conts(*self).len(),
+//@@ before /if self\.data\.is_empty/
+            let ghost s1 = *self;
+//@@ before /let l = /
+            let ghost s2 = *self;
+            proof {
+                lemma_rest(s1); lemma_rest(s2);
+                if s1.data@.len() == 0 { assert(rest(s2) =~= rest(s1)); } else { assert(s2 == s1); }
+            }
+//@@ after /let l = [^;]*;/
+            proof { axiom_min_usize(len, self.data@.len() as usize); }
+//@@ after /len -= l;/
+            proof {
+                assert(self.data@ =~= s2.data@.skip(l as int));
+                assert(conts(*self) == conts(s2));
+                assert(rest(*self) =~= rest(s2).skip(l as int));
+                assert(rest(s2).skip(l as int) =~= rest(me0).skip(len0 - len));
+            }
+//@@ end
+//@@ endimpl
+
+pub open spec fn is_eostream<T>(r: Option<Result<T, XlsError>>) -> bool { r matches Some(Err(XlsError::EoStream(_))) }
+
+proof fn lemma_cont_frames_push(c: Seq<&[u8]>, d: &[u8])
+    ensures cont_frames(c.push(d)) == cont_frames(c) + frame(0x3C, d@),
+{
+    assert(c.push(d).drop_last() =~= c);
+    assert(c.push(d).last() == d);
+}
+
+//@@ impl src/xls.rs "Iterator for RecordIter<'a>"
+//@@ item src/xls.rs impl_type "Iterator for RecordIter<'a>::type Item"
+//@@ fn src/xls.rs "Iterator for RecordIter<'a>::next" props=C02 entry ret=res
+//@@ sig
+    ensures
+        //# C02.next_none_iff_empty
+        res is None <==> old(self).s().len() == 0,
+        //# C02.next_none_frame
+        res is None ==> final(self).s() == old(self).s(),
+        //# C02.next_truncated_header
+        0 < old(self).s().len() < 4 ==> is_eostream(res),
+        //# C02.next_truncated_body
+        old(self).s().len() >= 4 && old(self).s().len() < 4 + u16_at(old(self).s(), 2) ==> is_eostream(res),
+        //# C02.next_err_is_eostream
+        res matches Some(Err(_)) ==> is_eostream(res),
+        //# C02.next_err_only_if_truncated
+        res matches Some(Err(_)) ==> old(self).s().len() < 4 || old(self).s().len() < 4 + u16_at(old(self).s(), 2)
+            || (at_continue(final(self).s()) && final(self).s().len() < 4 + u16_at(final(self).s(), 2)),
+        //# C02.next_typ
+        res matches Some(Ok(rec)) ==> rec.t() == u16_at(old(self).s(), 0),
+        //# C02.next_data
+        res matches Some(Ok(rec)) ==> rec.d() == old(self).s().subrange(4, 4 + u16_at(old(self).s(), 2)),
+        //# C02.next_framing
+        res matches Some(Ok(rec)) ==> old(self).s() == frame(rec.t(), rec.d()) + cont_frames(rec.c()) + final(self).s(),
+        //# C02.next_cont_maximal
+        res matches Some(Ok(rec)) ==> !at_continue(final(self).s()),
+        //# C02.next_cont_none_iff_no_continue
+        res matches Some(Ok(rec)) ==> (!rec.has_cont() <==> rec.c().len() == 0),
+        //# C02.next_progress
+        res is Some ==> final(self).s().len() <= old(self).s().len()
+            && (res matches Some(Ok(_)) ==> final(self).s().len() + 4 <= old(self).s().len()),
+//@@ body
+    let ghost s0 = self.stream@;
+//@@ before /let t = /
+    proof { lemma_le_at(s0, 0); lemma_le_at(s0, 2); assert(s0.subrange(0, s0.len() as int) =~= s0); }
+//@@ after /let d = [^;]*;/
+    proof {
+        lemma_frame_split(s0);
+        assert(d@ =~= s0.subrange(4, 4 + u16_at(s0, 2)));
+        assert(next@ =~= s0.subrange(4 + u16_at(s0, 2), s0.len() as int));
+        assert(cont_frames(Seq::<&[u8]>::empty()) =~= Seq::<u8>::empty());
+        assert(s0 =~= frame(t as int, d@) + cont_frames(Seq::<&[u8]>::empty()) + next@);
+    }
+//@@ before /while self\.stream/
+            #[verifier::loop_isolation(false)]
+//@@ loop 0
+                invariant
+                    s0 =~= frame(t as int, d@) + cont_frames(cont@) + self.stream@,
+                    self.stream@.len() <= next@.len(),
+                    cont@.len() == 0 ==> self.stream@ == next@,
+                decreases self.stream@.len(),
+//@@ before /len = read_u16/#1of2
+                let ghost st = self.stream@;
+                let ghost c0 = cont@;
+                proof { lemma_le_at(st, 0); lemma_le_at(st, 2); }
+//@@ after /self\.stream = sp\.1;/
+                proof {
+                    lemma_frame_split(st);
+                    let chunk = cont@.last();
+                    assert(cont@ == c0.push(chunk));
+                    assert(chunk@ =~= st.subrange(4, 4 + u16_at(st, 2)));
+                    assert(self.stream@ =~= st.subrange(4 + u16_at(st, 2), st.len() as int));
+                    lemma_cont_frames_push(c0, chunk);
+                    assert(s0 =~= frame(t as int, d@) + cont_frames(cont@) + self.stream@);
+                }
+//@@ end
+//@@ endimpl
 
 } // verus!
 fn main() {}
